@@ -56,6 +56,10 @@ var genRefused = rapid.Custom(func(t *rapid.T) string {
 		// accepted-looking but with a line break: the pattern's '.' does not cross it
 		return rapid.SampledFrom([]string{"1\n", "a\nb", "0\n0", "+1\n"}).Draw(t, "nl")
 	}
+	if chancePct(t, 8, "refusedformat") {
+		// inputs of the format whose registration the library refused
+		return []string{"!abc", "!x", "!quit", "!a"}[uniformN(t, 4, "refusedformatv")]
+	}
 	if chancePct(t, 10, "customnear") {
 		// near misses of the additional format #<1..3 digits>
 		return []string{"#", "#1234", "#a", "# 1", "##1", "#1\n", "#12a"}[uniformN(t, 7, "customnearv")]
